@@ -957,18 +957,21 @@ Proof.
 Qed.
 
 
-Lemma fd_not_alive : forall r, fdv s r = true -> ~ alive s r.
+End BLABELS.
+
+Lemma fd_not_alive : forall s r, InvA s -> fdv s r = true -> ~ alive s r.
 Proof.
-  intros r H [_ Ha]. rewrite (a_fd cfg s IA) in H. apply andb_true_iff in H. destruct H as [_ H].
+  intros s r IA H [_ Ha]. rewrite (a_fd cfg s IA) in H. apply andb_true_iff in H. destruct H as [_ H].
   destruct (pcr s r); cbn in *; discriminate.
 Qed.
 
-Lemma invB_sndLoop : forall typ id here after,
+Lemma invB_sndLoop : forall w s p ch s' typ id here after,
+  InvA s -> InvB w s -> alive s p ->
   (here = SndSyncReqLoop /\ after = RcvSyncRespLoop /\ typ = SYNC_REQ) \/
   (here = SndReplicaReqLoop /\ after = RcvReplicaRespLoop /\ typ = PUT_REQ) ->
   pcr s p = here -> step_sndLoop cfg ch s p typ id here after = Ok s' -> InvB w s'.
 Proof.
-  intros typ id here after Hh Epc Hs.
+  intros w s p ch s' typ id here after IA IB Ap Hh Epc Hs.
   assert (Hq : p = ldr s).
   { apply (nonbackup_is_ldr cfg s p IA Ap). rewrite Epc. destruct Hh as [(-> & _)|(-> & _)]; cbn; tauto. }
   subst p.
@@ -985,15 +988,15 @@ Proof.
       rewrite Epc. destruct Hh as [(-> & -> & _)|(-> & -> & _)]; auto. }
   apply Nat.leb_le in Ele.
   destruct (negb (Nat.eqb (r_idx (rl s (ldr s))) (ldr s))) eqn:Eself.
-  2:{ apply negb_false_iff, Nat.eqb_eq in Eself. apply (invB_may_fail _ _ _ Hs).
+  2:{ apply negb_false_iff, Nat.eqb_eq in Eself. apply (invB_may_fail w _ ch s' _ _ _ Hs).
       rewrite <- Epc. apply invB_snd_advance; auto. }
   apply negb_true_iff, Nat.eqb_neq in Eself.
   destruct (ch_alt ch); cbn [negb] in Hs.
-  { destruct (fdv s (r_idx (rl s (ldr s)))) eqn:Efd; [|discriminate]. apply (invB_may_fail _ _ _ Hs).
+  { destruct (fdv s (r_idx (rl s (ldr s)))) eqn:Efd; [|discriminate]. apply (invB_may_fail w _ ch s' _ _ _ Hs).
     rewrite <- Epc. apply invB_snd_advance; auto. left. split; [reflexivity|]. split; [reflexivity|].
-    right. apply fd_not_alive. exact Efd. }
+    right. apply fd_not_alive; auto. }
   unfold link_send in Hs. destruct (enabled (net s (r_idx (rl s (ldr s))) REQ)) eqn:Een; [|discriminate].
-  apply (invB_may_fail _ _ _ Hs).
+  apply (invB_may_fail w _ ch s' _ _ _ Hs).
   assert (Hx : isrep (r_idx (rl s (ldr s)))) by (unfold ProofsCrashA.isrep; lia).
   assert (Ax : alive s (r_idx (rl s (ldr s)))) by (eapply enabled_alive; eauto).
   assert (Hlt : ldr s < r_idx (rl s (ldr s))).
@@ -1004,19 +1007,20 @@ Proof.
   - apply (invB_send_put w s typ id IA IB Ap Ax Hlt); auto.
 Qed.
 
-Lemma invB_sndSyncReqLoop : pcr s p = SndSyncReqLoop -> step_sndSyncReqLoop cfg ch s p = Ok s' -> InvB w s'.
+Lemma invB_sndSyncReqLoop : forall w s p ch s', InvA s -> InvB w s -> alive s p ->
+  pcr s p = SndSyncReqLoop -> step_sndSyncReqLoop cfg ch s p = Ok s' -> InvB w s'.
 Proof.
-  intros Epc Hs. unfold step_sndSyncReqLoop in Hs.
-  eapply invB_sndLoop; [left; split; [reflexivity | split; reflexivity] | exact Epc | exact Hs].
+  intros w s p ch s' IA IB Ap Epc Hs. unfold step_sndSyncReqLoop in Hs.
+  eapply invB_sndLoop; eauto. left. auto.
 Qed.
 
-Lemma invB_sndReplicaReqLoop : pcr s p = SndReplicaReqLoop -> step_sndReplicaReqLoop cfg ch s p = Ok s' -> InvB w s'.
+Lemma invB_sndReplicaReqLoop : forall w s p ch s', InvA s -> InvB w s -> alive s p ->
+  pcr s p = SndReplicaReqLoop -> step_sndReplicaReqLoop cfg ch s p = Ok s' -> InvB w s'.
 Proof.
-  intros Epc Hs. unfold step_sndReplicaReqLoop in Hs.
+  intros w s p ch s' IA IB Ap Epc Hs. unfold step_sndReplicaReqLoop in Hs.
   destruct (r_req (rl s p)) as [m|]; cbn [bindT] in Hs; [|discriminate].
-  eapply invB_sndLoop; [right; split; [reflexivity | split; reflexivity] | exact Epc | exact Hs].
+  eapply invB_sndLoop; eauto. right. auto.
 Qed.
 
-End BLABELS.
 
 End CRB.
